@@ -17,7 +17,8 @@
    shape of compiled code for single elements, the two refutations.  The tie
    model/implementation for compile+exec (and compiled vs. interpreted on the
    implementation itself) is checked differentially over generated programs. *)
-From PBK Require Import Base Bits Descr Walk Coder Decode Compile CompileRun CompileProofs Cache CacheProofs.
+From PBK Require Import Base Bits Descr Walk Coder Decode Encode Column DecodeC EncodeC Compile CompileRun CompileProofs Cache CacheProofs
+  CompileChk CompileEquivBase CompileEquivTop.
 
 (* for any cache size m and any order of earlier requests ks, get_or_compile
    returns exactly what compiling the key afresh returns *)
@@ -57,3 +58,80 @@ Theorem C08_compile_exec_203000_marker_refuted :
     end.
 Proof. exact compile_exec_203000_marker_refuted. Qed.
 Print Assumptions C08_compile_exec_203000_marker_refuted.
+
+
+(* ======================================================================== *)
+(* The general equivalence (CompileEquiv*.v).                                *)
+(*                                                                            *)
+(* [ok_c08 T] (CompileChk.v) is executable: the template compiler run with   *)
+(* checking handlers.  It fails exactly where compiling is not provably       *)
+(* transparent: a marker operator while 204YYY is in force (D14), while the   *)
+(* 222000 status is not "NA", or after a 203000 that cancelled a definition    *)
+(* (D5); a replication whose body does not leave the compile-time registers   *)
+(* as it found them, unless a second compilation of the body (from the         *)
+(* registers left by the first) records the same statements and then leaves    *)
+(* the registers alone, and the count is statically >= 1 (D19 for delayed      *)
+(* replications: admitted only by [ok_c08_nz], for factors that are never 0).  *)
+(* [agree same_io a b]: both runs fail with the SAME error, or both succeed    *)
+(* with the same descriptors, links and primitive state (values, bits).         *)
+(* ======================================================================== *)
+
+Theorem C08_compile_exec_equiv :
+  forall (C : Type) (P : prims C) (T : descs),
+  Compile.scoped T = true -> ok_c08 T = true ->
+  exists code, compile T = Ok code /\
+    forall c0 : io C,
+      agree same_io (walk_list (io_handlers P) io_add_link T (mkWs regs0 c0))
+                    (exec_stmts P true code (mkWs regs0 c0)).
+Proof. intros C P T _. exact (compile_exec_equiv P T). Qed.
+Print Assumptions C08_compile_exec_equiv.
+
+(* the hypotheses hold for a template with operators, nested replication, new
+   reference values, a bitmap, class 33 attributes and a marker operator *)
+Example C08_compile_exec_equiv_nonvacuous :
+  Compile.scoped T_ok = true /\ ok_c08 T_ok = true /\
+  is_ok (decode_uncompressed T_ok 2 (repeat false 400)) = true.
+Proof. vm_compute. repeat split. Qed.
+
+Theorem C08_compile_exec_equiv_nonzero_factors :
+  forall (C : Type) (P : prims C) (T : descs),
+  Compile.scoped T = true -> ok_c08_nz T = true ->
+  exists code, compile T = Ok code /\
+    forall c0 : io C,
+      agree same_io (walk_list (io_handlers (nz_prims P)) io_add_link T (mkWs regs0 c0))
+                    (exec_stmts (nz_prims P) true code (mkWs regs0 c0)).
+Proof. intros C P T _. exact (compile_exec_equiv_nz P T). Qed.
+Print Assumptions C08_compile_exec_equiv_nonzero_factors.
+
+Example C08_compile_exec_equiv_nonzero_factors_nonvacuous :
+  Compile.scoped T_d19 = true /\ ok_c08 T_d19 = false /\ ok_c08_nz T_d19 = true.
+Proof. vm_compute. repeat split. Qed.
+
+Theorem C08_decode_uncompressed_compiled :
+  forall T n b, Compile.scoped T = true -> ok_c08 T = true ->
+  decode_uncompressed_c T n b = decode_uncompressed T n b.
+Proof. intros T n b _. exact (decode_uncompressed_c_eq T n b). Qed.
+Print Assumptions C08_decode_uncompressed_compiled.
+
+Theorem C08_decode_compressed_compiled :
+  forall T n b, Compile.scoped T = true -> ok_c08 T = true ->
+  decode_compressed_c T n b = decode_compressed T n b.
+Proof. intros T n b _. exact (decode_compressed_c_eq T n b). Qed.
+Print Assumptions C08_decode_compressed_compiled.
+
+Theorem C08_encode_uncompressed_compiled :
+  forall T vals, Compile.scoped T = true -> ok_c08 T = true ->
+  encode_uncompressed_c T vals = encode_uncompressed T vals.
+Proof. intros T vals _. exact (encode_uncompressed_c_eq T vals). Qed.
+Print Assumptions C08_encode_uncompressed_compiled.
+
+Theorem C08_encode_compressed_compiled :
+  forall T vals, Compile.scoped T = true -> ok_c08 T = true ->
+  encode_compressed_c T vals = encode_compressed T vals.
+Proof. intros T vals _. exact (encode_compressed_c_eq T vals). Qed.
+Print Assumptions C08_encode_compressed_compiled.
+
+(* the side condition rejects the two refuted witnesses above *)
+Theorem C08_ok_c08_rejects_findings : ok_c08 T_d14 = false /\ ok_c08 T_d5 = false.
+Proof. exact (conj ok_c08_rejects_d14 ok_c08_rejects_d5). Qed.
+Print Assumptions C08_ok_c08_rejects_findings.
